@@ -29,6 +29,8 @@ public:
   CPPTemplateScope(CPPScope *parent_scope);
 
   void add_template_parameter(CPPDeclaration *param);
+  void inherit_defaults(const CPPTemplateScope *earlier,
+                        CPPScope *current_scope, CPPScope *global_scope);
 
   virtual void add_declaration(CPPDeclaration *decl, CPPScope *global_scope,
                                CPPPreprocessor *preprocessor,
